@@ -92,7 +92,7 @@ def main():
     scale = 8 if thorough else 1
     stats = collections.Counter()
     work = M.Work()
-    found = []
+    found, keyed = [], []
     try:
         found += replay_corpus(chk, work, stats)
         # --- correspondence of the packaging model
@@ -111,6 +111,7 @@ def main():
         M.deb_stream(chk, work, cases)
         mo_model_stream(chk, work, 40 * scale)
         found += F.cli_subset(chk, work, 8 * scale, stats)
+        keyed = F.charset_declarations(chk, work, stats)
         # --- the metamorphic falsifiers
         seeds = [chk.seed] + ([chk.seed + 1000 * k for k in (1, 2, 3)] if thorough else [])
         import random
@@ -129,9 +130,10 @@ def main():
     chk.note_cases([(t,) for t in M.SEEN_TAGS])
     chk.coverage['modulo'] = {'charset_tags': sorted(M.CHARSET_TAGS), 'mo_exemption': 'no-date-header-field POT-Creation-Date (PO side only)',
                               'order_sensitive_on_reordered_catalogs_only': sorted(M.ORDER_SENSITIVE)}
+    for key, f in keyed:
+        chk.violation(f"{f['kind']}: diagnostics differ", f, key=key)        # KNOWN-FINDING if the key is recorded, VIOLATION otherwise
     for f in found[:6]:
-        key = None
-        chk.violation(f"{f['kind']}: diagnostics differ", f, key=key)
+        chk.violation(f"{f['kind']}: diagnostics differ", f, key=None)
     if not found and chk.broken:
         chk.violation('proof obligation or model correspondence no longer checks; no failing pair or package found', {'broken': chk.broken}, no_input=True)
     chk.finish(
